@@ -297,6 +297,18 @@ def _paeth(a, b, c):
     return c
 
 
+def png_trailing_bytes(data):
+    """Number of bytes that follow the IEND chunk of a well-formed PNG stream (a PNG file ends with that chunk)."""
+    pos = 8
+    while pos + 12 <= len(data):
+        (ln,) = struct.unpack('>I', data[pos:pos + 4])
+        typ = data[pos + 4:pos + 8]
+        pos += 12 + ln
+        if typ == b'IEND':
+            return len(data) - pos
+    raise FormatError('no IEND chunk')
+
+
 def png_decode(data):
     """-> (width, height, rows) with rows = list of bytearray(width*4) RGBA.
     Raises FormatError on any structural problem (signature, CRC, zlib, sizes)."""
